@@ -4,7 +4,8 @@
     bytes), proto decoding and ICS-23 verification of Merkle proofs) are
     universally quantified function arguments of every theorem. *)
 From Teleport Require Import Base.Bytes Base.Outcome Model.Tendermint Model.TendermintCheck
-  Proofs.TendermintStore Proofs.TendermintVerify Proofs.Tendermint Proofs.TendermintMonitor.
+  Proofs.TendermintStore Proofs.TendermintVerify Proofs.Tendermint Proofs.TendermintMonitor
+  Proofs.TendermintExample.
 Local Open Scope Z_scope.
 
 (** [wf_header]: the relayer-supplied numbers are in the range of their Go types
@@ -215,19 +216,40 @@ Theorem C07_proof_height_gate_and_delay_gate :
 Proof. exact verify_packet_gates. Qed.
 Print Assumptions C07_proof_height_gate_and_delay_gate.
 
+(** Store well-formedness — strictly sorted keys (= iteration order of the real
+    store) and every key with the iteration prefix being the iteration key of a
+    height — holds after CreateClient and is preserved by every history, so the
+    "first in iteration order" of the pruning step is the EARLIEST height. *)
+Theorem C07_store_wf_invariant :
+  forall valset_hash header_hash verify_sig ops cs cons now0,
+  valid_height (cs_latest cs) ->
+  let s := run_updates valset_hash header_hash verify_sig (create_client [] cs cons now0) ops in
+  sorted s /\ wf_iter_keys s.
+Proof.
+  intros vh hh vs ops cs cons now0 V. destruct (create_client_wf cs cons now0 V).
+  now apply run_updates_preserves_wf.
+Qed.
+Print Assumptions C07_store_wf_invariant.
+
 (** The executable monitor applied to implementation traces accepts every accepted
-    step of the model (sorted store, well-formed header, oracle tables). *)
+    step of the model (well-formed store and header, oracle tables, trust level
+    fields below 2^63). *)
 Theorem C07_monitor_sound_update :
-  forall ot pre hdr now post,
-  wf_header hdr -> sorted pre ->
+  forall valid ot pre hdr now post,
+  wf_header hdr -> sorted pre -> wf_iter_keys pre ->
+  (forall cs, client_of pre = Some cs ->
+              (cs_tl_num cs < 9223372036854775808)%N /\ (cs_tl_den cs < 9223372036854775808)%N) ->
   update_client (tab_valset_hash ot) (tab_header_hash ot) (tab_verify_sig ot) pre hdr now = Ok post ->
-  mon_update pre post now hdr ot = [].
+  mon_update valid pre post now hdr ot = [].
 Proof. exact mon_update_sound. Qed.
 Print Assumptions C07_monitor_sound_update.
 
+(** ([now]: a block time that fits uint64 nanoseconds; processed times are stored
+    as 8 bytes — the only writer is setConsensusMetadata) *)
 Theorem C07_monitor_sound_verify :
-  forall decodes member cs pre now h proof_nil ack path val,
-  TendermintCheck.client_of pre = Some cs -> (cs_delay cs < two64N)%N ->
+  forall decodes member cs pre now h (proof_nil : bool) ack path val,
+  client_of pre = Some cs -> (cs_delay cs < two64N)%N -> 0 <= now < two64 ->
+  (forall b, sget (pt_key h) pre = Some (VBytes b) -> length b = 8%nat) ->
   verify_packet (fun _ => decodes) (fun _ _ _ _ _ _ => member) cs pre now h
                 (if proof_nil then None else Some []) ack path val = Ok tt ->
   mon_verify pre pre now h proof_nil decodes member = [].
@@ -240,6 +262,6 @@ Print Assumptions C07_monitor_sound_verify.
 Example C07_nonvacuous :
   exists s', update_client nv_valset_hash nv_header_hash nv_verify_sig nv_store nv_header nv_now = Ok s' /\
              wf_header nv_header /\ sorted nv_store /\
-             match TendermintCheck.client_of s' with Some cs' => cs_latest cs' = mkH 2 9 | None => False end.
+             match client_of s' with Some cs' => cs_latest cs' = mkH 2 9 | None => False end.
 Proof. exact nonvacuous. Qed.
 Print Assumptions C07_nonvacuous.
